@@ -52,6 +52,9 @@ claimed = {
  "C15": ("bounded-exhaustive enumeration of weak-order patterns x pivot positions x strides + proptest, oracle = rank by counting",
          "Complete over order patterns, pivot positions and five view strides up to length 7/8; random arrays up to 500 elements beyond it. Both build profiles.",
          "Trusts ndarray slicing to build the strided views.", "5/C15"),
+ "C17": ("enumerated decision table (routine x emptiness x second-argument shape x q scenario x type x layout) with seeded instances; oracle = cell value derived from the documentation",
+         "All 47 fallible routines are driven through every cell of the documented error table; the error variant, its payload (both shapes / the first offending q) and the absence of panics are compared with the documented outcome.",
+         "Cells with no documented behaviour are left out and listed in the rule; cov with zero variables is an open known finding routed by its exact signature.", "5/C17"),
  "C18": ("proptest differential: bulk call vs single-item calls on fresh copies (quantiles, selection, moments bit-for-bit, per-axis weighted forms vs lane routine)",
          "Request lists with forced repeats and shared lower/higher indexes, any order, 0..32 items; every slice of every bulk result is compared with its single-item counterpart; moments bitwise; per-axis forms also against exact integer sums.",
          "Float per-axis forms are required to agree within the summation budget (they were bit-identical in every run; reported as a class).", "5/C18"),
